@@ -13,6 +13,7 @@ shortest-round-trip algorithm (the one of `core::num::flt2dec::strategy::dragon:
 everything else by the model.
 -/
 import TeraModel.Model.Eval
+import TeraModel.Model.EvalInherit
 import TeraModel.Model.AstWire
 open Tera
 
@@ -194,6 +195,48 @@ def handleRender (ts : List String) : Option String := do
     | [] => none
   | [] => none
 
+/-- `name <0|1 autoescape> ostr(parent) Ns<k> node…` -/
+def parseRawTemplates : Nat → List String → Option (RawSet × List String)
+  | 0, ts => some ([], ts)
+  | n + 1, ts => do
+    let (name, r) ← AstWire.parseName ts
+    match r with
+    | ae :: r =>
+      let (parent, r) ← AstWire.parseOptName r
+      let (nodes, r) ← AstWire.parseNodes r
+      let (rest, r) ← parseRawTemplates n r
+      pure ((name, { nodes := nodes, parent := parent, autoescape := ae == "1" }) :: rest, r)
+    | [] => none
+
+/-- `renderx <main> ostr(block) R<n> rawtemplate*n X<k> … G<k> …`: render (or render_block when a
+block name is given) with inheritance. -/
+def handleRenderX (ts : List String) : Option String := do
+  let (main, r) ← AstWire.parseName ts
+  let (block, r) ← AstWire.parseOptName r
+  match r with
+  | t :: r =>
+    let n ← AstWire.counted "R" t
+    let (raw, r) ← parseRawTemplates n r
+    match r with
+    | x :: r =>
+      let k ← AstWire.counted "X" x
+      let (ctx, r) ← parseCtx k r
+      match r with
+      | g :: r =>
+        let k ← AstWire.counted "G" g
+        let (glob, r) ← parseCtx k r
+        if !r.isEmpty then none
+        else
+          let res := match block with
+            | none => renderInherit FUEL raw nativeOps fmtF64 main ctx glob
+            | some b => renderBlock FUEL raw nativeOps fmtF64 main b ctx glob
+          match res with
+          | .ok text => some ("ok " ++ Wire.hexOfStr text)
+          | .error e => some (showErr e)
+      | [] => none
+    | [] => none
+  | [] => none
+
 def handleForLoop (ts : List String) : Option String := do
   let (v, r) ← Wire.parseValue ts
   let kv := r == ["1"]
@@ -220,6 +263,7 @@ def handleForLoop (ts : List String) : Option String := do
 def handle (line : String) : String :=
   match Wire.tokens line with
   | "render" :: rest => (handleRender rest).getD "bad-request"
+  | "renderx" :: rest => (handleRenderX rest).getD "bad-request"
   | "fmtf" :: rest =>
     match Wire.parseValue rest with
     | some (.f64 x, []) => "ok " ++ Wire.hexOfStr (fmtF64 x)
